@@ -19,7 +19,8 @@ RULE = ('generated multi-gene references (2-4 genes, <=3 isoforms; transcripts t
     'generated order with .idx files on a generated subset (in-process), reference given as a '
     'generateIndex directory (in-process), --threads 2-5 (console entry point in a fresh '
     'process, pathos workers), PYTHONHASHSEED 1/2/3/random (fresh process), and the unchanged '
-    'command once more in a fresh process (address-space layout differs only). Oracle '
+    'command once more in a fresh process (address-space layout differs only) and once more '
+    'inside the checking process after other graphs were built (history differs only). Oracle '
     '(differential): identical sequence sets, exit status 0. Non-trivial = a threaded run '
     'whose number of dispatched transcripts is not a multiple of the thread count while some '
     'transcript is skipped, or a transcript whose records are spread over >= 2 files; distinct '
@@ -104,6 +105,10 @@ def strategy_(draw, tier):
     # the very same command once more, in a fresh process: with nothing varied the output may
     # not vary either (address-space layout is the only thing that differs between the runs)
     variants.append(dict(kind='repeat', hashseed='0', assign=[0] * n, order_seed=0, idx_mask=0))
+    # ... and once more inside this process, which has built other graphs in the meantime: the
+    # result of a transcript may not depend on what the process handled before (with
+    # --threads N every worker sees its own sequence of transcripts)
+    variants.append(dict(kind='again', assign=[0] * n, order_seed=0, idx_mask=0))
     return dict(ref=refd, records=records, opts=opts, variants=variants, skipped=skipped)
 
 
@@ -170,7 +175,7 @@ def prop(case, ctx):
         spread_here = any(len(x) >= 2 for x in files_of.values())
         desc = f"{v['kind']} files={[p.name for p in paths]}"
         try:
-            if v['kind'] == 'layout':
+            if v['kind'] in ('layout', 'again'):
                 got, _, _ = drive.call_variant(d, paths, o, out_name='v.fasta')
             elif v['kind'] == 'index_dir':
                 idx = d/'index'
